@@ -30,7 +30,14 @@ RULE = ("each case: print options (lossless, precision 0..9, line length 10..120
         "or any float-representable one incl. values just below 1 and below 2^-8 — the last kind compared to the "
         "printed precision: less than one unit of the last printed digit apart), constant and arithmetic runs of length "
         "1..12 of every type (incl. wrap-around and signed-zero runs), arrays of 0..8 elements, runs of 1..12 equal "
-        "arrays, nested arrays; 20 % as whole messages with an address of '/' + 0..100 characters out of all printable "
+        "arrays, nested arrays; in 14 % of the cases (90 % of them with compression on) 2..4 ADJACENT runs of one type, "
+        "each of length 1..9 around the threshold: constant runs and arithmetic runs with steps +-1 and others of c / i "
+        "/ h, constant and alternating boolean runs, constant runs of every other type (floats and doubles also as the "
+        "neighbouring float, the other zero, and arithmetic-looking sequences that must stay uncompressed), the next run "
+        "starting at / one old step after / one new step after / one off / one step back from / unrelated to the last "
+        "value of the run before, at the very start of the list or behind 1..3 values of the same or another type, "
+        "at top level or as the content of an array of up to ~40 elements (itself first, behind 1..2 values, or behind a "
+        "compressed run), with 0..2 values behind; 20 % as whole messages with an address of '/' + 0..100 characters out of all printable "
         "non-blank ASCII (33..126); plus a stream for the libc sub-models (printf %a %#.Nf, sscanf %f %lf %d %i %x, "
         "localtime/mktime). Texts the printer does not write are not generated (C11's statement); `T` ops occur only "
         "as regression witnesses in corpus/C10.ops. Scanned booleans are observed with their payload val.T. "
@@ -527,6 +534,205 @@ def g_args(rng, lossless, stats, prec=0):
     return out
 
 
+# ------------------------------------------------------------------------------------
+# adjacent runs: two or more compressible runs next to each other (at the very start of a list or of an array's
+# content, behind 1..3 other values, back to back).  The scanner finds the left neighbour of `a ... b` by looking at
+# the cells it has already written (a preceding `R:1 delta start` triple, a preceding `R:0 value` pair, or a plain
+# value) and the printer leaves out the second number of a +-1 range exactly when that neighbour allows it, so what
+# stands in front of a range, and how many cells it occupies, decides what is printed and what is scanned back.
+# ------------------------------------------------------------------------------------
+ADJ_DELTAS = [1, -1, 1, -1, 1, -1, 2, -2, 3, -3, 5, 10, -10, 100, -7, 1000]
+ADJ_RELATIONS = ["at", "at", "at", "step_after", "new_step_after", "one_off", "one_back", "unrelated"]
+ADJ_LEN = [1, 2, 3, 4, 4, 5, 5, 5, 5, 6, 6, 7, 9]
+
+
+def _adj_range(ty):
+    if ty == "c":
+        return 32, 126
+    return (-2 ** 31, 2 ** 31 - 1) if ty == "i" else (-2 ** 63, 2 ** 63 - 1)
+
+
+def _adj_start(rng, ty):
+    if ty == "c":
+        return rng.randint(45, 110)
+    r = rng.random()
+    if r < 0.6:
+        return rng.randint(-20, 20)
+    if r < 0.8:
+        return rng.choice([0, 1, -1, 5, 9, 10, 99, 100, -100, 1000, 12345, -9999])
+    lo, hi = _adj_range(ty)
+    if r < 0.9:        # close to the ends of the type's range
+        return rng.choice([lo + rng.randint(0, 12), hi - rng.randint(0, 12)])
+    return g_i(rng) if ty == "i" else g_h(rng)
+
+
+def g_adjacent_ints(rng, ty, stats):
+    """values (python ints) of 2..4 runs of type c / i / h, plus the description of the joints"""
+    lo, hi = _adj_range(ty)
+    for _attempt in range(20):
+        nruns = rng.choice([2, 2, 2, 3, 3, 4])
+        vals, joints, runs = [], [], []
+        last, prev_delta = None, 0
+        for k in range(nruns):
+            n = rng.choice(ADJ_LEN)
+            delta = 0 if rng.random() < 0.25 else rng.choice(ADJ_DELTAS)
+            if k == 0:
+                start = _adj_start(rng, ty)
+            else:
+                rel = rng.choice(ADJ_RELATIONS)
+                start = {"at": last, "step_after": last + prev_delta, "new_step_after": last + delta,
+                         "one_off": last + rng.choice([1, -1]), "one_back": last - prev_delta,
+                         "unrelated": _adj_start(rng, ty)}[rel]
+                joints.append(rel)
+            run = [start + j * delta for j in range(n)]
+            runs.append((n, delta))
+            vals += run
+            last, prev_delta = run[-1], delta
+        if all(lo <= v <= hi for v in vals):
+            return vals, joints, runs
+    return [rng.randint(40, 50)] * 5 + [rng.randint(51, 60)] * 5, ["unrelated"], [(5, 0), (5, 0)]
+
+
+def g_adjacent_consts(rng, ty, lossless, prec, stats):
+    """2..4 constant runs of one type that has no arithmetic runs in the printer (floats, strings, blobs, ...): the
+    next run's value is unrelated, or (floats) the neighbouring float / the other zero"""
+    nruns = rng.choice([2, 2, 3, 4])
+    toks, joints, runs = [], [], []
+    prev = None
+    for k in range(nruns):
+        n = rng.choice(ADJ_LEN)
+        v = g_val(rng, ty, lossless, prec)
+        if ty in "fd" and rng.random() < 0.3:       # also "arithmetic" float sequences, which must stay uncompressed
+            base = rng.randint(-8, 8)
+            step = rng.choice([1, -1, 2, 0.5, 0.25])
+            fl = [base + j * step for j in range(n)]
+            if ty == "f":
+                toks += ["f%08x" % struct.unpack("<I", struct.pack("<f", x))[0] for x in fl]
+            else:
+                toks += ["d%016x" % struct.unpack("<Q", struct.pack("<d", x))[0] for x in fl]
+            joints.append("float_sequence")
+            runs.append((n, 1))
+            prev = toks[-1]
+            continue
+        if prev is not None and ty in "fd" and rng.random() < 0.4:
+            bits = int(prev[1:], 16)
+            width = 8 if ty == "f" else 16
+            top = 1 << (width * 4 - 1)
+            if bits & ~top == 0:
+                nb = bits ^ top                       # the other zero: equal, but printed differently
+            else:
+                nb = bits + rng.choice([1, -1])
+            if (nb >> (23 if ty == "f" else 52)) & (0xff if ty == "f" else 0x7ff) != (0xff if ty == "f" else 0x7ff):
+                v = "%s%0*x" % (ty, width, nb)
+            joints.append("float_neighbour")
+        elif prev is not None:
+            joints.append("at" if v == prev else "unrelated")
+        toks += [v] * n
+        runs.append((n, 0))
+        prev = v
+    return toks, joints, runs
+
+
+def g_adjacent(rng, lossless, stats, prec=0):
+    """argument list with two or more adjacent runs; returns the op-line tokens"""
+    st = stats["adjacent"]
+    r = rng.random()
+    if r < 0.32:
+        ty = "i"
+    elif r < 0.52:
+        ty = "c"
+    elif r < 0.72:
+        ty = "h"
+    elif r < 0.80:
+        ty = "B"
+    elif r < 0.90 and lossless:
+        ty = rng.choice("fd")
+    else:
+        ty = rng.choice([t for t in "sSbmrtNIfd" if lossless or t not in "fd"])
+    if ty in "cih":
+        vals, joints, runs = g_adjacent_ints(rng, ty, stats)
+        body = ["%s%d" % (ty, v) for v in vals]
+    elif ty == "B":
+        body, joints, runs = [], [], []
+        for k in range(rng.choice([2, 2, 3, 4])):
+            n = rng.choice(ADJ_LEN)
+            first = rng.choice("TF")
+            alt = rng.random() < 0.5
+            body += [first if (j % 2 == 0 or not alt) else ("F" if first == "T" else "T") for j in range(n)]
+            runs.append((n, 1 if alt else 0))
+            if k:
+                joints.append("bool")
+    else:
+        body, joints, runs = g_adjacent_consts(rng, ty, lossless, prec, stats)
+
+    def same_type_val():
+        if ty == "B":
+            return rng.choice("TF")
+        if ty in "cih":
+            first = int(body[0][1:])
+            d = runs[0][1]
+            lo, hi = _adj_range(ty)
+            cand = rng.choice([first, first - d, first - 1, first + 1, _adj_start(rng, ty)])
+            return "%s%d" % (ty, cand if lo <= cand <= hi else first)
+        return g_val(rng, ty, lossless, prec)
+
+    in_array = rng.random() < 0.35
+    nlead = 0 if rng.random() < 0.45 else rng.randint(1, 3)
+    ntail = rng.choice([0, 0, 0, 1, 2])
+    tys = types_for(lossless)
+    if in_array:
+        lead = [same_type_val() for _ in range(nlead)]
+        tail = [same_type_val() for _ in range(ntail)]
+        els = lead + body + tail
+        out = ["[%d" % ord(els[0][0])] + els + ["]"]
+        # the array itself at the start of the list, or behind other values (also behind a compressed run)
+        r = rng.random()
+        if r < 0.3:
+            out = [g_val(rng, rng.choice(tys), lossless, prec) for _ in range(rng.randint(1, 2))] + out
+        elif r < 0.45:
+            n = rng.randint(5, 7)
+            out = ["i%d" % (k + 1) for k in range(n)] + out
+        r = rng.random()
+        if r < 0.2:
+            out = out + [g_val(rng, rng.choice(tys), lossless, prec)]
+        elif r < 0.45 and ty in "cih":
+            # a run directly behind the array, starting at / next to the array's last element: that element is not
+            # the left neighbour of what follows the array
+            last = int(els[-1][1:])
+            lo, hi = _adj_range(ty)
+            d = rng.choice([1, -1, 1, -1, 2, 0])
+            start = last + rng.choice([0, 0, d, 1, -1])
+            run = [start + j * d for j in range(rng.choice([4, 5, 5, 6, 7]))]
+            if all(lo <= v <= hi for v in run):
+                out = out + ["%s%d" % (ty, v) for v in run]
+                st["run_behind_array"] += 1
+    else:
+        def any_val():
+            return same_type_val() if rng.random() < 0.6 else g_val(rng, rng.choice(tys), lossless, prec)
+        lead = [any_val() for _ in range(nlead)]
+        if rng.random() < 0.12:
+            # a constant run (two cells once compressed) in front, of the same or of another type
+            lead = [any_val()] * rng.choice([4, 5, 5, 6])
+            nlead = len(lead)
+            st["const_run_in_front"] += 1
+        out = lead + body + [any_val() for _ in range(ntail)]
+    st["cases"] += 1
+    st["in_array"] += 1 if in_array else 0
+    for key, val in (("type_hist", ty), ("lead_hist", str(nlead)), ("runs_hist", str(len(runs)))):
+        st[key][val] = st[key].get(val, 0) + 1
+    for j in joints:
+        st["joint_hist"][j] = st["joint_hist"].get(j, 0) + 1
+    for n, d in runs:
+        key = "const" if d == 0 else ("step+-1" if d in (1, -1) else "other_step")
+        key += ">=5" if n >= 5 else "<5"
+        st["run_kind_hist"][key] = st["run_kind_hist"].get(key, 0) + 1
+    # the class in which a +-1 range directly follows a +-1 range that fills exactly the first three cells
+    if (ty in "cih" and nlead == 0 and runs[0][0] >= 5 and runs[0][1] in (1, -1) and joints[0] == "at"
+            and runs[1][0] >= 5 and runs[1][1] in (1, -1)):
+        st["first_three_cells_then_range"] += 1
+    return out
+
+
 ADDR_PLAIN = b"abcxyz/_09#"
 ADDR_ANY = bytes(range(33, 127))          # every printable character that is not white space
 
@@ -560,7 +766,10 @@ def generate(rng, tier, stats):
     stats.update({"shape_single_type": 0, "shape_mixed": 0, "shape_pieces": 0, "runs": 0, "arrays": 0, "array_runs": 0,
                   "run_len_hist": {}, "array_len_hist": {}, "messages": 0, "lossless": 0, "compress": 0,
                   "type_hist": {}, "linelength_hist": {}, "precision_hist": {}, "blob_len_hist": {}, "string_len_hist": {},
-                  "address_len_hist": {}, "address_unusual_chars": 0, "time_fraction_lossy_mode": 0, "list_len_hist": {}})
+                  "address_len_hist": {}, "address_unusual_chars": 0, "time_fraction_lossy_mode": 0, "list_len_hist": {},
+                  "adjacent": {"cases": 0, "compress_on": 0, "in_array": 0, "first_three_cells_then_range": 0, "run_behind_array": 0,
+                               "const_run_in_front": 0,
+                               "type_hist": {}, "lead_hist": {}, "runs_hist": {}, "joint_hist": {}, "run_kind_hist": {}}})
 
     def bump(key, val):
         stats[key][val] = stats[key].get(val, 0) + 1
@@ -576,7 +785,12 @@ def generate(rng, tier, stats):
         ll = rng.choice([10, 11, 12, 15, 20, 40, 79, 80, 81, 120]) if rng.random() < 0.5 else rng.randint(10, 120)
         comp = 1 if rng.random() < 0.6 else 0
         msg = rng.random() < 0.2
-        args = g_args(rng, lossless, stats, prec)
+        if rng.random() < 0.14:      # two or more runs next to each other; mostly with compression on
+            comp = 1 if rng.random() < 0.9 else 0
+            args = g_adjacent(rng, lossless, stats, prec)
+            stats["adjacent"]["compress_on"] += comp
+        else:
+            args = g_args(rng, lossless, stats, prec)
         stats["lossless"] += lossless
         stats["compress"] += comp
         stats["messages"] += 1 if msg else 0
